@@ -156,10 +156,32 @@ theorem round1_sound {rec} (hrec : RecSound rec) {lw : Bytes} :
 /-! ### Round 2 -/
 
 def Inv2 (first : Option Item) (members : List Node) : Prop :=
-  ∀ f, first = some f → ∀ m ∈ members, leadingItem m = some f
+  ∀ f, first = some f → ∀ m ∈ members, ∃ i, leadingItem m = some i ∧ itemEq f i = true
 
-theorem lead_sat {m : Node} {f : Item} {lw : Bytes} (hl : leadingItem m = some f) (h : NodeSat m lw) :
+theorem itemEq_refl (f : Item) : itemEq f f = true := by
+  cases f <;> simp [itemEq]
+
+/-- Items that `Regexp.Equal` identifies require the same literals (a literal requires its
+    lower-cased bytes whatever its flag). -/
+theorem itemEq_req {f i : Item} (h : itemEq f i = true) : itemReq f = itemReq i := by
+  cases f with
+  | lit a fa =>
+    cases i with
+    | lit b fb =>
+      have : a = b := by simpa [itemEq] using h
+      subst this; rfl
+    | other k r => simp [itemEq] at h
+  | other k r =>
+    cases i with
+    | lit b fb => simp [itemEq] at h
+    | other k' r' =>
+      have : Item.other k r = Item.other k' r' := by simpa [itemEq] using h
+      rw [this]
+
+theorem lead_sat {m : Node} {f i : Item} {lw : Bytes} (hl : leadingItem m = some i) (he : itemEq f i = true)
+    (h : NodeSat m lw) :
     ∃ x lw', lw = x ++ lw' ∧ (∀ l ∈ itemReq f, hasSub x l = true) ∧ Sat (dropLead m) lw' := by
+  rw [itemEq_req he]
   cases m with
   | fact _ _ => simp [leadingItem] at hl
   | cls _ => simp [leadingItem] at hl
@@ -167,7 +189,7 @@ theorem lead_sat {m : Node} {f : Item} {lw : Bytes} (hl : leadingItem m = some f
     cases items with
     | nil => simp [leadingItem] at hl
     | cons x rest =>
-      have : x = f := by simpa [leadingItem] using hl
+      have : x = i := by simpa [leadingItem] using hl
       subst this
       simp only [NodeSat] at h
       cases x with
@@ -197,7 +219,8 @@ theorem close2_sound {rec} (hrec : RecSound rec) {first : Option Item} {members 
     | some f =>
       unfold NodesSat
       simp only [close2, List.mem_singleton, exists_eq_left, NodeSat]
-      obtain ⟨x, lw', e, hx, hd⟩ := lead_sat (hinv f rfl m hm) hs
+      obtain ⟨i, hli, hei⟩ := hinv f rfl m hm
+      obtain ⟨x, lw', e, hx, hd⟩ := lead_sat hli hei hs
       intro l hl
       rcases List.mem_append.1 hl with hl | hl
       · rw [e]; exact hasSub_append_left _ (hx l hl)
@@ -228,8 +251,10 @@ theorem round2_sound {rec} (hrec : RecSound rec) {lw : Bytes} :
         · have : m = nd := by simpa using hm
           subst this
           subst hf
-          simp only [run2Cond, Bool.and_eq_true, beq_iff_eq] at hc
-          exact hc.1
+          simp only [run2Cond, Bool.and_eq_true] at hc
+          cases hli : leadingItem m with
+          | none => rw [hli] at hc; simp at hc
+          | some i => rw [hli] at hc; exact ⟨i, rfl, hc.1⟩
       · rcases h with ⟨m, hm, hs⟩ | ⟨b0, hb0, hs⟩
         · exact .inl ⟨m, List.mem_append_left _ hm, hs⟩
         · rcases List.mem_cons.1 hb0 with rfl | hb0
@@ -243,7 +268,7 @@ theorem round2_sound {rec} (hrec : RecSound rec) {lw : Bytes} :
           intro f hf m hm
           have : m = nd := by simpa using hm
           subst this
-          exact hf
+          exact ⟨f, hf, itemEq_refl f⟩
         have := ih (leadingItem nd) [nd] hinv' (by
           rcases List.mem_cons.1 hb0 with rfl | hb0
           · exact .inl ⟨b0, by simp, hs⟩
